@@ -18,7 +18,8 @@ def run_scenario(scn: dict, *, eager: bool = False) -> dict:
         cs = st["cond"].statistics()
         owner = 0
         if cs.lock_statistics.owner is not None:
-            owner = b.ids.get(cs.lock_statistics.owner.id, -1)
+            o = cs.lock_statistics.owner
+            owner = b.ids.get(o.id) or (int(o.name[1:]) if o.name[:1] == "t" and o.name[1:].isdigit() else -1)
         return {"owner": owner, "w": cs.tasks_waiting}
 
     b = Bench(scn, obs)
